@@ -18,6 +18,7 @@ PAD_HINT = {'rule': 'R1', 'find': 'let mut hash = md5::Context::new();',
 
 UNIT = {
  'name': 'cryptkdf',
+ 'rlimit': 40,   # headroom: revision_6_kdf needs more than half of the default limit under some seeds (half-rlimit stability run)
  'doc': 'nested fns of Decoder::from_password against ISO 32000-1 Algorithms 2, 3 a-d, 4, 5, 6; Decoder::revision_6_kdf against '
         'ISO 32000-2 Algorithm 2.B; from_password re-proved on the proved contracts (MD5, SHA-2, AES uninterpreted, RC4 = spec fn and lemmas of units/rc4 with no RC4 axiom, hash feed as ghost state)',
  'items': {
